@@ -42,6 +42,7 @@ func main() {
 	)
 	flag.Parse()
 	applyRound2Texts()
+	applyRound3Texts()
 	if *verif == "" {
 		exe, _ := os.Executable()
 		*verif = filepath.Dir(filepath.Dir(exe))
